@@ -551,4 +551,34 @@ theorem loop_spells (f : Fmt) (len : Bool) {line : List Str} {sems : List Sem} (
     | error e => rfl
     | ok σ' => exact ih σ'
 
+
+/-! ### A well-formed prefix followed by anything (used for the single-fault theorems of C02) -/
+
+/-- items spelled by `toks`, standing before the tokens `next` -/
+inductive SpellsPrefix (f : Fmt) : List Str → List Str → List Sem → Prop
+  | nil {next} : SpellsPrefix f next [] []
+  | cons {next toks toks' sems sems'} : Spells f (toks' ++ next) toks sems → SpellsPrefix f next toks' sems' →
+      SpellsPrefix f next (toks ++ toks') (sems ++ sems')
+
+theorem loop_prefix (f : Fmt) (len : Bool) {next toks : List Str} {sems : List Sem}
+    (h : SpellsPrefix f next toks sems) (σ : St) :
+    loopF f len (toks ++ next) true σ = thenLoop f len (runSems f len sems σ) next true := by
+  induction h generalizing σ with
+  | nil => simp [runSems, thenLoop]
+  | @cons toks toks' sems sems' hs _ ih =>
+    rw [List.append_assoc, spells_step f len hs σ, runSems_append]
+    simp only [thenLoop]
+    cases runSems f len sems σ with
+    | error e => rfl
+    | ok σ' => simpa [thenLoop] using ih σ'
+
+/-- the loop stops with `e` at the first token of `next`, after a well-formed prefix -/
+theorem loop_prefix_error (f : Fmt) (len : Bool) {next toks : List Str} {sems : List Sem}
+    (h : SpellsPrefix f next toks sems) (σ σ' : St) (e : Err) (tok : Str) (rest : List Str)
+    (hn : next = tok :: rest) (hrun : runSems f len sems σ = .ok σ')
+    (hstep : step f len tok rest true σ' = .error (e, σ')) :
+    loopF f len (toks ++ next) true σ = .error (e, σ') := by
+  rw [loop_prefix f len h σ, hrun, hn]
+  simp only [thenLoop, loopF_cons, hstep]
+
 end Clikit.Parser
